@@ -8,8 +8,13 @@ C07 driver: one JSON request per line on stdin, one JSON answer per line on stdo
             | {"k":"job","name","script":[..],"deps":[..]} | {"k":"func","name","body"} | {"k":"coll","backend","name","body"}
             | {"k":"ext","kind","fields"} | {"k":"bad"}
       PROBE = {"b":B,"x":[[kind,proto]..],"q":{..},"md":[..],"r":{..}}        (r = what the translator proper answered)
-      -> {"states":[STATE after each op],"outcomes":[..],"benignNew":[..],"benignOn":[..],"allBenign":bool,
-          "clean":bool,"probe":{"outcome":..,"found":[[kind,proto,fields]..]},"final":STATE}
+      optional "states":[STATE ..]  — the IMPLEMENTATION's observed state after each operation.  When given, operation k
+      is simulated from the observed state before it (one-step simulation), otherwise from the model's own previous state.
+      -> {"steps":[{"asis":STATE,"ideal":STATE,"outcome":..,"benignNew":bool,"benignOn":bool}..],"allBenign":bool,
+          "clean":bool,"probe":{"outcome":..,"found":[[kind,proto,fields]..],"asis":STATE,"ideal":STATE}}
+      "asis" = the model of the code as it is; "ideal" = the same operation if every translation ended with a full reset
+      (registry, namespaces, executor lists, own extended-metadata dict, found metadata of this translation only) and no
+      dict were shared: the harness accepts either, component by component, so that a repair of a listed leak is not an alarm.
   {"op":"agree","fresh":OBS,"after":OBS}   OBS = {"kind":..,"files":[[name,[lines]]..],"found":[..]}
       -> {"holds":bool,"why":..}
   {"op":"witness","name":..,"history":[..],"probe":..,"on":..} -> {"match":bool,"expected":[..],"got":[..]}
@@ -110,39 +115,91 @@ def opOutcome (s : HState) : OpO → String
   | .addXmd _ _ => "addx"
   | .translate e q md r => outcomeName (translateWith Dreal (fun _ => r) s e q md).2
 
+def tripleList (j : Json) : Except String (List (String × String × String)) := do
+  (← j.getArr?).toList.mapM fun p => do
+    let a ← p.getArr?
+    if a.size != 3 then throw "triple expected"
+    pure (← a[0]!.getStr?, ← a[1]!.getStr?, ← a[2]!.getStr?)
+
+def parseExec (j : Json) : Except String Exec := do
+  let job ← (← getL j "job").mapM fun b => do
+    let a ← b.getArr?
+    if a.size != 3 then throw "job = [name, script, deps]"
+    pure (⟨← a[0]!.getStr?, ← strList a[1]!, ← strList a[2]!⟩ : JobBlock)
+  pure ⟨← parseBackend (← getS j "b"), job, ← pairList (← j.getObjVal? "inject"), ← (← j.getObjVal? "shared").getBool?,
+    ← pairList (← j.getObjVal? "own"), ← tripleList (← j.getObjVal? "found")⟩
+
+def parseState (j : Json) : Except String HState := do
+  let reg ← (← tripleList (← j.getObjVal? "reg")).mapM fun t => pure ((t.1, t.2.1), t.2.2)
+  let spaces ← (← getL j "spaces").mapM strList
+  let enums ← (← getL j "enums").mapM fun e => do
+    let a ← e.getArr?
+    if a.size != 3 then throw "enum = [path, name, values]"
+    pure ((← strList a[0]!, ← a[1]!.getStr?), ← strList a[2]!)
+  pure ⟨reg, ⟨spaces, enums⟩, ← pairList (← j.getObjVal? "shared_xmd"), ← (← getL j "execs").mapM parseExec, ← getN j "counter"⟩
+
+/-- the operation as a fully repaired library would perform it (see the header) -/
+def idealStep (s : HState) : OpO → HState
+  | .new b => { s with reg := ainsertAll s.reg (Dreal b), execs := s.execs ++ [⟨b, [], [], false, [], []⟩] }
+  | .addXmd e x =>
+    match s.execs[e]? with
+    | none => s
+    | some ex => { s with execs := s.execs.set e { ex with xmdShared := false, xmdOwn := ainsertAll (effXmd s ex) x } }
+  | .translate e q md r =>
+    match s.execs[e]? with
+    | none => s
+    | some ex =>
+      let t := translateWith Dreal (fun _ => r) s e q md
+      let m := mdRun (effXmd s ex) ⟨s.reg, s.ns, []⟩ md 0
+      let reached : Bool := match m.2 with
+        | some _ => false
+        | none => stageOf r.tag (wrongBackend ex.backend m.1.specs) != .transform
+      let nf := if reached then xitemsOf m.1.specs else []
+      { t.1 with reg := defaultsReg Dreal ex.backend, ns := NsReg.empty,
+                 execs := s.execs.set e { ex with job := [], inject := [], xmdShared := false, xmdOwn := [], found := nf } }
+
 structure RunAcc where
   s : HState
-  states : List Json := []
-  outcomes : List String := []
+  steps : List Json := []
   bNew : List Bool := []
   bOn : List Bool := []
 
-def runAll (p : Probe) (on : Option Nat) : List OpO → RunAcc → RunAcc
-  | [], a => a
-  | o :: h, a =>
+def runAll (p : Probe) (on : Option Nat) : List OpO → List HState → RunAcc → RunAcc
+  | [], _, a => a
+  | o :: h, obs, a =>
     let s' := stepO Dreal a.s o
-    runAll p on h { s := s', states := a.states ++ [stateJson s'], outcomes := a.outcomes ++ [opOutcome a.s o],
-                    bNew := a.bNew ++ [benignNew Dreal p a.s o],
-                    bOn := a.bOn ++ [match on with | some e => benignOn Dreal p e a.s o | none => true] }
+    let bn : Bool := benignNew Dreal p a.s o
+    let bo : Bool := match on with | some e => benignOn Dreal p e a.s o | none => true
+    let step := Json.mkObj [("asis", stateJson s'), ("ideal", stateJson (idealStep a.s o)), ("outcome", opOutcome a.s o),
+      ("benignNew", Json.bool bn), ("benignOn", Json.bool bo)]
+    -- continue from the implementation's observed state when there is one
+    let (next, rest) := match obs with | x :: xs => (x, xs) | [] => (s', [])
+    runAll p on h rest { s := next, steps := a.steps ++ [step], bNew := a.bNew ++ [bn], bOn := a.bOn ++ [bo] }
 
 def doRun (j : Json) : Except String Json := do
   let h ← (← getL j "history").mapM parseOp
   let (p, r) ← parseProbe (← j.getObjVal? "probe")
   let on := parseOn j
-  let a := runAll p on h { s := s₀ }
+  let obs ← match j.getObjVal? "states" with
+    | .ok v => (← v.getArr?).toList.mapM parseState
+    | .error _ => pure []
+  let a := runAll p on h obs { s := s₀ }
   let s := a.s
   -- the probe, with the translator's recorded answer
   let e := match on with | some e => e | none => s.execs.length
+  let run (stp : HState → OpO → HState) : HState :=
+    let s1 := match on with | some _ => s | none => stp s (.new p.b)
+    let s2 := stp s1 (.addXmd e p.xadd)
+    stp s2 (.translate e p.q p.md r)
   let s1 := match on with | some _ => s | none => newExec Dreal s p.b
   let s2 := addXmd s1 e p.xadd
   let t := translateWith Dreal (fun _ => r) s2 e p.q p.md
   let clean := match on with | some e => cleanOn Dreal p s e | none => cleanNew Dreal p s
-  pure (Json.mkObj [("states", Json.arr a.states.toArray), ("outcomes", jstrs a.outcomes),
-    ("benignNew", Json.arr (a.bNew.map Json.bool).toArray), ("benignOn", Json.arr (a.bOn.map Json.bool).toArray),
+  pure (Json.mkObj [("steps", Json.arr a.steps.toArray),
     ("allBenign", a.bNew.all id && a.bOn.all id), ("clean", clean),
     ("probe", Json.mkObj [("outcome", outcomeName t.2),
-       ("found", Json.arr ((foundFor p t.1 e).map fun f => jstrs [f.1, f.2.1, f.2.2]).toArray)]),
-    ("final", stateJson t.1)])
+       ("found", Json.arr ((foundFor p t.1 e).map fun f => jstrs [f.1, f.2.1, f.2.2]).toArray),
+       ("asis", stateJson (run (stepO Dreal))), ("ideal", stateJson (run idealStep))])])
 
 def parseObs (j : Json) : Except String Obs := do
   let files ← (← getL j "files").mapM fun f => do
